@@ -240,6 +240,7 @@ def run(ctx):
     journal_table(ctx)
     _pytz_table(ctx)
     _signed_durations(ctx)
+    _zoned_durations(ctx)
     ctx.floor("C16/DT-END", 60)
 
 
@@ -336,6 +337,36 @@ def getter_table(ctx, it, ci, endp):
                   f"(start, end, duration) = {got}, expected {exp}", ci.loc(),
                   detail=" | ".join(got))
     return table
+
+
+def _zoned_durations(ctx):
+    """A zoned DTSTART plus DURATION under the zoneinfo provider: the end is the start's wall
+    clock advanced by DURATION (RFC 5545: days and weeks are nominal), not the instant advanced
+    on the UTC line and converted back."""
+    m = ctx.model
+    it = Interp(m)
+    vddd = ClassVal(m.cls("prop.vDDDTypes"))
+    for cq in ("cal.Event", "cal.Todo"):
+        ci = m.cls(cq)
+        for dshape in ("days", "secs", "daystime"):
+            comp = it.call(ClassVal(ci), [], {})
+            comp.items["DTSTART"] = it.call(vddd, [DT("zoned", 1, {"START": 1}, "Europe/Berlin")], {})
+            comp.items["DURATION"] = stored(it, m, dshape, "DUR")
+            try:
+                v = it.getattr(comp, "end")
+            except AbsRaise as ex:
+                ctx.fail("C16/DT-END", f"[zoneinfo] {ci.name} zoned DTSTART + DURATION={dshape}",
+                         f"end raises {ex.cls_name}", ci.loc())
+                continue
+            except Unsupported as ex:
+                raise AnalysisError(f"[zoneinfo] {ci.name}.end leaves the abstract interface: {ex}")
+            good = isinstance(v, DT) and term_str(v.term) == "DUR + START" and \
+                v.tag not in ("elapsed-arith", "instant-moved", "converted")
+            ctx.check(good, "C16/DT-END", f"[zoneinfo] {ci.name} zoned DTSTART + DURATION={dshape}",
+                      f"end = {v!r} (tag {getattr(v, 'tag', None)}): the end must be the wall clock of the start "
+                      f"advanced by DURATION; it was computed on the UTC line and converted back, which is "
+                      f"off by the DST change when one lies in between (end - start != DURATION)",
+                      ci.loc(), detail="DUR + START (wall-clock)")
 
 
 def _signed_durations(ctx):
